@@ -13,9 +13,10 @@ const libPkg = "github.com/emicklei/go-restful/v3"
 type Blocked struct {
 	State string `json:"state"`
 	Frame string `json:"frame"`
+	ID    string `json:"goroutine"`
 }
 
-var gHead = regexp.MustCompile(`^goroutine \d+ (?:gp=\S+ m=\S+ (?:mp=\S+ )?)?\[([^\],]+)`)
+var gHead = regexp.MustCompile(`^goroutine (\d+) (?:gp=\S+ m=\S+ (?:mp=\S+ )?)?\[([^\],]+)`)
 
 // BlockedInLibrary inspects all goroutine stacks (state-based, not time-based): a goroutine whose
 // state is a channel or lock wait and whose first non-runtime/sync frame belongs to go-restful.
@@ -39,7 +40,7 @@ func BlockedInLibrary() []Blocked {
 		if m == nil {
 			continue
 		}
-		state := m[1]
+		state := m[2]
 		if !(strings.HasPrefix(state, "chan send") || strings.HasPrefix(state, "chan receive") || strings.HasPrefix(state, "select") ||
 			strings.HasPrefix(state, "semacquire") || strings.HasPrefix(state, "sync.")) {
 			continue
@@ -53,7 +54,7 @@ func BlockedInLibrary() []Blocked {
 				continue
 			}
 			if strings.HasPrefix(fn, libPkg) {
-				out = append(out, Blocked{State: state, Frame: strings.TrimPrefix(fn, libPkg+".")})
+				out = append(out, Blocked{State: state, Frame: strings.TrimPrefix(fn, libPkg+"."), ID: m[1]})
 			}
 			break
 		}
@@ -70,21 +71,35 @@ func WaitQuiescent(done <-chan struct{}, watchdog time.Duration) (blocked []Bloc
 		return nil, false
 	case <-time.After(watchdog):
 	}
-	// the watchdog only decides WHEN to look; the verdict comes from goroutine state, looked at twice
-	b1 := BlockedInLibrary()
-	select {
-	case <-done:
-		return nil, false
-	case <-time.After(watchdog / 2):
-	}
-	b2 := BlockedInLibrary()
-	if len(b1) > 0 && len(b2) > 0 {
-		return b2, true
+	// the watchdog only decides WHEN to look; the verdict comes from goroutine state: the SAME goroutine parked at
+	// the SAME go-restful frame in three samples spread over the second half of the watchdog (a goroutine that merely
+	// queues for a lock on a slow machine moves on between samples)
+	persistent := BlockedInLibrary()
+	for k := 0; k < 2 && len(persistent) > 0; k++ {
+		select {
+		case <-done:
+			return nil, false
+		case <-time.After(watchdog / 4):
+		}
+		now := map[string]string{}
+		for _, b := range BlockedInLibrary() {
+			now[b.ID] = b.Frame
+		}
+		var still []Blocked
+		for _, b := range persistent {
+			if now[b.ID] == b.Frame {
+				still = append(still, b)
+			}
+		}
+		persistent = still
 	}
 	select {
 	case <-done:
 		return nil, false
 	default:
+	}
+	if len(persistent) > 0 {
+		return persistent, true
 	}
 	return nil, true
 }
